@@ -522,6 +522,15 @@ type c18Shadowing struct {
 	C18Common
 }
 
+// a NAMED field of a struct type without an avp tag (bookkeeping the application keeps next to the
+// AVP fields - the peer's identity, a copy of the request): not an AVP, not embedded, not marshalled
+type c18UntaggedStructField struct {
+	Peer C18Common
+	RC   uint32 `avp:"Result-Code"`
+	Note *C18Second
+	Host string `avp:"Origin-Host"`
+}
+
 // an embedded struct whose TYPE is unexported (its fields are exported and settable)
 type c18common struct {
 	Host  string `avp:"Origin-Host"`
@@ -763,6 +772,14 @@ func c18Statics() []c18Static {
 			h, r := strs[v%3], strs[v/3%3]
 			return &c18Shadowing{Host: "s;" + r, C18Common: C18Common{h, r}}, []refcodec.Node{strn(263, "s;"+r), strn(264, h), strn(296, r)}, true
 		}},
+		{"untagged-named-struct-field", func(v int) (interface{}, []refcodec.Node, bool) {
+			if v >= 9 {
+				return nil, nil, false
+			}
+			h, r := strs[v%3], strs[v/3%3]
+			return &c18UntaggedStructField{Peer: C18Common{"peer." + h, "peer." + r}, RC: u32s[v%3], Note: &C18Second{"note", 7}, Host: h},
+				[]refcodec.Node{u32n(268, u32s[v%3]), strn(264, h)}, true
+		}},
 		{"embedded-struct-of-unexported-type", func(v int) (interface{}, []refcodec.Node, bool) {
 			if v >= 9 {
 				return nil, nil, false
@@ -927,6 +944,10 @@ func c18StaticEval(cs C18Case) string {
 			if err != nil || !bytes.Equal(again, got) {
 				return fmt.Sprintf("marshalling the same ready-made values into a second message changed the first message: %x, before %x (err %v)", again, got, err)
 			}
+		}
+		if x, ok := src.(*c18UntaggedStructField); ok {
+			// untagged fields are not part of the message: the round trip reproduces the tagged ones
+			x.Peer, x.Note = C18Common{}, nil
 		}
 		for _, via := range []string{"direct", "wire"} {
 			mm := m
@@ -1113,7 +1134,7 @@ func runC18(ctx *ev.Ctx) {
 			}
 		}
 	}
-	ctx.Rule = "struct types built with reflect.StructOf: one field for each of 24 (AVP, holder family) rows - including fields declared with a go-diameter datatype other than the dictionary's, and a vendor-specific AVP whose must-not lists V - (including a vendor-specific AVP whose must attribute does not list V and a vendor-less one whose must does) (every scalar data type, a vendor-specific AVP, Float32/64, IPv4/6, IPFilterRule, QoSFilterRule from a generated dictionary) x each Go holder type (native scalar, datatype type, net.IP, []byte, time.Time) x wrapper {T, *T, []T, []*T} x nine tag forms (plain, omitempty, each with a second key before/after, other keys carrying their own ,omitempty option before/after) x values {boundary atoms; nil pointer; nil, empty, 1-, 2- and 4-element slices}; plus static shapes: nested struct, pointer to struct, slice of structs with omitempty members (an element or a pointed-to struct all of whose members are omitted still yields its - empty - Grouped AVP), slice of pointers, anonymous embedded struct (first, after a tagged field, in the middle, of an unexported type; two embedded structs declaring the same Go field names; an outer field shadowing an embedded one), group in group, AVP / *AVP / []*AVP / []AVP fields (the last also as a group member), optional group members held through pointers with omitempty (each of three members nil, pointing to 0, pointing to 7 - a non-nil pointer to the zero value is a present member), in a nested struct, a pointer to one and slices of both; the struct shapes also in a message carrying a private dictionary that defines every name used with another code, other flags and vendor ids (members of nested structs must be resolved through the message's dictionary too). Six tag names the default dictionary defines differently in two applications (vendor id, flags or data type) are marshalled into messages of the one application, the other, and the first again, in both orders, in one process. Every struct shape is marshalled a second time, with its string members changed and its ready-made []*AVP list (built by append, or with a capacity hint) shared, into a second message: the first message must not change. Every other case marshals into a message that already holds an AVP and has been marshalled into before. Oracle: the AVP bytes Marshal produces equal the AVPs built by hand from the reference dictionary entry (code, vendor id, M from must, V from vendor, typed value); Unmarshal directly and after Serialize+ReadMessage reproduces the field values (nil == empty for slices, times by second, floats by bits)."
+	ctx.Rule = "struct types built with reflect.StructOf: one field for each of 24 (AVP, holder family) rows - including fields declared with a go-diameter datatype other than the dictionary's, and a vendor-specific AVP whose must-not lists V - (including a vendor-specific AVP whose must attribute does not list V and a vendor-less one whose must does) (every scalar data type, a vendor-specific AVP, Float32/64, IPv4/6, IPFilterRule, QoSFilterRule from a generated dictionary) x each Go holder type (native scalar, datatype type, net.IP, []byte, time.Time) x wrapper {T, *T, []T, []*T} x nine tag forms (plain, omitempty, each with a second key before/after, other keys carrying their own ,omitempty option before/after) x values {boundary atoms; nil pointer; nil, empty, 1-, 2- and 4-element slices}; plus static shapes: nested struct, pointer to struct, slice of structs with omitempty members (an element or a pointed-to struct all of whose members are omitted still yields its - empty - Grouped AVP), slice of pointers, anonymous embedded struct (first, after a tagged field, in the middle, of an unexported type; two embedded structs declaring the same Go field names; an outer field shadowing an embedded one; untagged NAMED fields of struct / pointer-to-struct type whose types carry avp tags - not marshalled), group in group, AVP / *AVP / []*AVP / []AVP fields (the last also as a group member), optional group members held through pointers with omitempty (each of three members nil, pointing to 0, pointing to 7 - a non-nil pointer to the zero value is a present member), in a nested struct, a pointer to one and slices of both; the struct shapes also in a message carrying a private dictionary that defines every name used with another code, other flags and vendor ids (members of nested structs must be resolved through the message's dictionary too). Six tag names the default dictionary defines differently in two applications (vendor id, flags or data type) are marshalled into messages of the one application, the other, and the first again, in both orders, in one process. Every struct shape is marshalled a second time, with its string members changed and its ready-made []*AVP list (built by append, or with a capacity hint) shared, into a second message: the first message must not change. Every other case marshals into a message that already holds an AVP and has been marshalled into before. Oracle: the AVP bytes Marshal produces equal the AVPs built by hand from the reference dictionary entry (code, vendor id, M from must, V from vendor, typed value); Unmarshal directly and after Serialize+ReadMessage reproduces the field values (nil == empty for slices, times by second, floats by bits)."
 	ctx.Assume = []string{"holder types are those for which the reflect code has a conversion path (AssignableTo / ConvertibleTo); Address holders carry IPv4 / IPv6 only"}
 }
 
